@@ -195,6 +195,29 @@ def evaluate(formula, d, atoms):
             err = check_matrix(list(term.labels), dm.group[name], d, atoms, group=True)
             if err:
                 return f"{err} (group term {name})"
+    # "in every design": the design derived for new data (a selection of rows of this frame, so no unseen level) carries the same
+    # labels, and its columns hold what they say on THAT frame (whether it can be evaluated at all is C06 / C10's business)
+    d2 = d.iloc[[(7 * i + 3) % len(d) for i in range(max(6, len(d) // 2))]].reset_index(drop=True)
+    if dm.common is not None:
+        try:
+            nm = dm.common.evaluate_new_data(d2)
+        except Exception:        # noqa: BLE001
+            nm = None
+        if nm is not None:
+            for name, term in dm.common.terms.items():
+                err = check_matrix(list(term.labels), nm[name], d2, atoms)
+                if err:
+                    return f"new-data design: {err} (term {name})"
+    if dm.group is not None:
+        try:
+            ng = dm.group.evaluate_new_data(d2)
+        except Exception:        # noqa: BLE001
+            ng = None
+        if ng is not None:
+            for name, term in dm.group.terms.items():
+                err = check_matrix(list(term.labels), ng[name], d2, atoms, group=True)
+                if err:
+                    return f"new-data design: {err} (group term {name})"
     return "ok"
 
 
